@@ -8,4 +8,5 @@
    Proofs/ChainBasics.v holds the generic lemmas (names, patch maps, the store, chains,
    state commits); Proofs/ChainTxn.v the transaction invariant [tinv] and its preservation
    by every transaction operation; Proofs/ChainExec.v execute / open_stack / transact. *)
-From StgV Require Export Proofs.ChainBasics Proofs.ChainTxn Proofs.ChainExec Proofs.ChainStep.
+From StgV Require Export Proofs.ChainBasics Proofs.ChainTxn Proofs.ChainExec Proofs.ChainStep
+  Proofs.ChainBase.
